@@ -101,6 +101,76 @@ class C15(Oracle):
                     return False
         return True
 
+    def _addressed(self, t, cols, key):
+        """indices of the columns a table item assignment addresses (None: cannot tell)"""
+        nc = len(cols)
+        if key is None:
+            return list(range(nc))
+        k = key.get("k")
+
+        def one(x):
+            if isinstance(x, bool):
+                return None
+            if isinstance(x, int):
+                return x % nc if -nc <= x < nc else None
+            if isinstance(x, str):
+                try:
+                    c = t[x]
+                except Exception:
+                    return None
+                hit = [j for j in range(nc) if cols[j] is c]
+                return hit[0] if len(hit) == 1 else None
+            return None
+        if k == "int":
+            j = one(key["i"])
+            return None if j is None else [j]
+        if k == "slice":
+            return list(range(nc))[slice(key.get("a"), key.get("b"), key.get("s"))]
+        if k == "str":
+            j = one(key["v"])
+            return None if j is None else [j]
+        if k == "mixed":
+            js = [one(x) for x in key["v"]]
+            return None if any(j is None for j in js) else js
+        return None
+
+    def _table_refusal(self, env, rec, out):
+        """an item assignment on a table was refused with AliasError: some column it addresses must
+        really share its storage with another not-yet-collected vector"""
+        w = env.world
+        e = w.entries.get(out["writer"]) if out["writer"] is not None else None
+        if e is None or not e.is_table:
+            return []
+        env.probe("c15_table_refusals")
+        try:
+            cols = list(e.obj.cols())
+        except Exception:
+            return []
+        addr = self._addressed(e.obj, cols, rec.get("cols"))
+        if not addr:
+            return []
+        shared = {}
+        for j in range(len(cols)):
+            tr = real_sharers(cols[j])
+            if tr is None:
+                env.probe("c15_ground_truth_unavailable")
+                return []
+            shared[j] = bool(tr)
+        if any(shared[j] for j in addr):
+            env.probe("c15_table_refused_with_real_partner")
+            return []
+        if any(len(cols[j]) == 0 for j in addr):
+            env.probe("c15_empty_vector_refusals")
+            return []
+        others = sorted(j for j in shared if shared[j] and j not in addr)
+        sig = {"op": "tset", "how": "untouched-column-shared" if others else "no-sharer",
+               "vid": (rec.get("vid") or {}).get("p", "fresh"), "ncols_addressed": min(len(set(addr)), 3)}
+        return [Violation("C15", "C15/spurious-refusal",
+                          "item assignment on table %s addressing columns %s refused with AliasError although none of them shares "
+                          "its storage with another live vector%s" % (
+                              w.name_of(e), sorted(set(addr)),
+                              ("; only the untouched column(s) %s are shared" % others) if others else ""), sig)]
+
     def _partners(self, tag, target):
         out = []
         for r in self.classes.get(tag, []):
@@ -159,6 +229,9 @@ class C15(Oracle):
                     self.classes.setdefault(tag, []).append(weakref.ref(res.obj))
                     self.tag_of[res.obj] = tag
                     env.probe("c15_deepcopy_joins_class")
+        if op == "tset" and out["st"] == "exc" and out["exc"] == "AliasError":
+            viols.extend(self._table_refusal(env, rec, out))
+            return viols
         if out["kind"] != "write" or op not in ("writeback", "set"):
             return viols
         e = w.entries.get(out["writer"]) if out["writer"] is not None else None
